@@ -68,7 +68,7 @@ fn decode_adv(u: &mut Unstructured) -> c12::AdvHistory {
             _ => reqs.push(c12::AdvReq::Close { strat: strat(u.arbitrary::<u8>().unwrap_or(0)) }),
         }
     }
-    c12::AdvHistory { native: flags & 1 == 1, reqs, build_anyway: flags & 2 == 2, final_strat: strat(flags >> 2) }
+    c12::AdvHistory { native: flags & 1 == 1, reqs, build_anyway: flags & 2 == 2, final_strat: strat(flags >> 2), quiet: flags & 0x80 != 0 }
 }
 
 fn report(prop: &str, case: serde_json::Value, f: Failure) -> ! {
